@@ -262,6 +262,30 @@ func c07CheckDirect(c *kit.Case, in *c07Input, id uint64) {
 			dO, dL = r0[8], 112
 		}
 	}
+	// read-like calls: l = min(w_l, |v| - f), so a request for the whole tail and a request for
+	// "everything from f" (w_l = 2^64-1 or 2^64-2) are one and the same call
+	if o, f, l, ok := c07Dest(id); ok && res.exit == ExitContinue && outc == "ok" {
+		n := res.regs[7]
+		ff := r0[f]
+		if ff > n {
+			ff = n
+		}
+		if r0[l] >= n-ff && r0[l] < ^uint64(0)-1 {
+			in2 := *in
+			in2.Regs[l] = ^uint64(0) - (r0[o] & 1)
+			if res2 := c07RunDirect(c, &in2, id, Gas(in.Gas)); res2 != nil {
+				c.Class("read_like_whole_tail_vs_max_length")
+				if ff > 0 {
+					c.Class("read_like_whole_tail_vs_max_length_offset_ge_1")
+				}
+				if res2.exit != res.exit || res2.regs[7] != n {
+					c.Failf("%s: answered |v|=%d and wrote the whole tail from offset %d; the same call with length %#x gives %s (w7=%#x)", desc, n, ff, in2.Regs[l], c07Outcome(id, res2.exit, res2.regs[7]), res2.regs[7])
+				} else if _, _, d, st := c07MemDiff(res.memPost, res2.memPost); d != 0 || st != "" {
+					c.Failf("%s: the same call with length %#x leaves different guest memory (%d octets differ %s)", desc, in2.Regs[l], d, st)
+				}
+			}
+		}
+	}
 	if nchg > 0 {
 		if res.exit != ExitContinue || outc != "ok" {
 			lo, hi, _, _ := c07MemDiff(res.memPre, res.memPost)
